@@ -10,7 +10,7 @@
     [fmt_f32] / [parse_f32] stand for strconv's float32 formatting/parsing. *)
 From Coq Require Import ZArith List Bool Lia.
 From Hts Require Import Base.Prim Generated Model.SamText Model.SamSpec.
-From Hts Require Import Proofs.SamBytes Proofs.SamFormat Proofs.SamParse Proofs.SamReader Proofs.SamBam.
+From Hts Require Import Proofs.SamBytes Proofs.SamFormat Proofs.SamParse Proofs.SamReader Proofs.SamBam Proofs.SamAux.
 Import ListNotations.
 Open Scope Z_scope.
 
@@ -80,6 +80,23 @@ Theorem sam_roundtrip_partial :
       format_record fmt_f32 h fl (core_of r) = Ok line.
 Proof. exact roundtrip_core_gen. Qed.
 Print Assumptions sam_roundtrip_partial.
+
+(** Aux fields, scalar types: for every aux field of type A, c/C/s/S/i/I, f or
+    Z that is expressible in SAM text, under the law of strconv
+    [parse_f32 (fmt_f32 x) = Some x] on the float values that occur (premise;
+    validated against strconv and IEEE 754 on every run, NaN excluded):
+    ParseAux of the text samAux.String writes succeeds, keeps the tag and
+    yields the same value (integers by value: the text does not carry the
+    width).  MISSING: H and B (array) fields. *)
+Theorem sam_aux_roundtrip_partial :
+  forall (fmt_f32 : Z -> list Z) (parse_f32 : list Z -> option Z) (f32_ok : Z -> Prop),
+    (forall x, f32_ok x -> parse_f32 (fmt_f32 x) = Some x) ->
+    forall a,
+      auxv_ok (a_val a) -> scalar (a_val a) -> floats_ok f32_ok (a_val a) ->
+      exists txt a', format_aux fmt_f32 a = Some txt /\ parse_aux parse_f32 txt = Ok a' /\
+                     a_t0 a' = a_t0 a /\ a_t1 a' = a_t1 a /\ view_val (a_val a') = view_val (a_val a).
+Proof. exact aux_scalar_roundtrip. Qed.
+Print Assumptions sam_aux_roundtrip_partial.
 
 (** The number texts used by every field: what %d / "0x%x" write is read back
     by Atoi, ParseUint(base 10) and ParseUint(base 0). *)
